@@ -243,7 +243,7 @@ def run(ctx):
             changed = edited != stream
             ctx.case((c, m, what), changed)
             ctx.dist("oracle:%s:%s:%s" % (mode, what[0], "delivered-all" if len(got) >= len(sent) else stop))
-            case = {"cipher": c, "mac": m, "compression": comp, "edit": list(what), "seq0": seq,
+            case = {"cipher": c, "mac": m, "compression": comp, "edit": list(what), "seq0": seq, "salt": si,
                     "stream": stream.hex(), "edited": edited.hex()}
             if not is_prefix(got, sent):
                 n_viol += 1
@@ -259,6 +259,27 @@ def run(ctx):
     ctx.extra["exhaustive_positions_suites"] = len(suites) if ctx.thorough else len(reps)
 
 
+def replay(data):
+    """./check C02 --replay replays/C02-….json : feed the recorded tampered stream to a fresh real receiver"""
+    import random
+    from paramiko.packet import Packetizer
+
+    case = data.get("case", {})
+    if "edited" not in case or "cipher" not in case:
+        print("replay: nothing to re-run for this kind of replay file")
+        return 0
+    rng = random.Random(0)
+    args = (case["cipher"], case["mac"], case["compression"], case["salt"], case["seq0"])
+    sent, _ = replay_real(Packetizer, rng, *args, bytes.fromhex(case["stream"]), 50)
+    got, stop = replay_real(Packetizer, rng, *args, bytes.fromhex(case["edited"]), 50)
+    ok = is_prefix(got, sent)
+    print("sent %d messages; tampered stream delivered %d, then %s; prefix-of-sent: %s" % (len(sent), len(got), stop, ok))
+    for i, g in enumerate(got):
+        if i >= len(sent) or g != sent[i]:
+            print("  message %d differs: sent %r got %r" % (i, sent[i] if i < len(sent) else None, g))
+    return 0 if ok else 1
+
+
 META = {
     "claimed": True,
     "level": ("PARTIAL. Proved in Lean for arbitrary byte strings handed to read_message: a delivery implies that the complete "
@@ -268,11 +289,16 @@ META = {
               "the explicit symbolic hypothesis hNoForge (every record that verifies is the sender's record at that position) "
               "and bijectivity of the cipher, for every history incl. key switches and every tampered stream the delivered "
               "messages are a prefix of the sent ones and the receiver stops with an error/EOF or has delivered everything "
-              "(prefix_of_sent_partial); hNoForge holds on the honest stream. Unforgeability of HMAC/GCM itself is NOT proved. "
+              "(prefix_of_sent_partial); hNoForge holds on the honest stream; inside one MAC-mode key epoch of <= 2^32 packets the "
+              "usual set-membership form (whatever verifies was authenticated by the sender at some time) suffices, because the "
+              "sequence number is in every record (prefix_of_sent_membership_partial). Unconditionally (no hypothesis): any "
+              "truncation of the honest stream yields a prefix of the sent messages followed by EOF (truncated_stream_prefix). "
+              "Unforgeability of HMAC/GCM itself is NOT proved. "
               "Model tied to packet.py by toy-primitive runs of tampered streams through the real Packetizer."),
     "note": ("Trusted: Lean kernel + 3 axioms; harness; hypotheses hNoForge, CipherLaws/CipherBij/AeadLaws/MacOk/CompLaws about "
-             "cryptography/hashlib/zlib. hNoForge is positional (k-th verified record = k-th authenticated record); deriving "
-             "it from set-membership unforgeability needs < 2^32 packets per key, which the rekey policy (C10) enforces. "
+             "cryptography/hashlib/zlib. hNoForge is positional (k-th verified record = k-th authenticated record); it is derived "
+             "from set-membership unforgeability for MAC modes within one epoch of <= 2^32 packets (the rekey policy, C10, keeps "
+             "epochs far shorter); for AES-GCM and across key switches only the positional form is used. "
              "Exception classes raised on tampering (InvalidTag vs SSHException) are C38's subject, not judged here."),
     "technique": "Lean 4 proof (inversion of the receive paths on arbitrary input; induction with paired-state invariant under a symbolic no-forgery hypothesis) + tampered-stream correspondence + exhaustive single-byte-edit oracle",
 }
